@@ -211,8 +211,8 @@ def n_from_class(rng, nclass):
     return int(rng.integers(11, 61))
 
 
-SWEEP_RELATIONS = ["same", "beyond", "shifted", "nested", "free", "short"]
-_SWEEP_REL_P = [0.25, 0.25, 0.15, 0.1, 0.1, 0.15]
+SWEEP_RELATIONS = ["same", "repeat", "beyond", "shifted", "nested", "free", "short"]
+_SWEEP_REL_P = [0.15, 0.22, 0.2, 0.13, 0.08, 0.08, 0.14]
 _MARGIN = 0.025  # decades (~6 %): a sweep boundary stays a strict reversal after 5-significant-digit / integer rounding
 
 
@@ -223,67 +223,107 @@ def _log_grid(rng, m, lo):
     return lo + np.concatenate([[0.0], np.cumsum(steps)])
 
 
+def _rand_Z(rng, m, base_mag, wild):
+    if wild:
+        mag = 10.0 ** rng.uniform(-6.0, 6.0, size=m)
+    else:
+        mag = 10.0 ** np.clip(base_mag + rng.uniform(-1.0, 1.0, size=m), -6.0, 6.0)
+    ang = rng.uniform(-np.pi, np.pi, size=m)
+    # keep both components away from exact zero (|cos|,|sin| >= 1e-3): "both signs of Re and Im"
+    ang = np.where(np.abs(np.cos(ang)) < 1e-3, ang + 0.01, ang)
+    ang = np.where(np.abs(np.sin(ang)) < 1e-3, ang + 0.01, ang)
+    return mag * np.exp(1j * ang)
+
+
 def gen_sweeps(rng, n, nsweeps, order):
     """List of (f, Z) per sweep in *row order*.  Frequencies strictly monotonic inside a sweep (neighbours >= 7 % apart:
     survives 5-significant-digit instrument formats), all sweeps of a file in the same row order, and every following
     sweep starts strictly beyond the end of the previous one in the reverse direction - a reversal is what marks a new
     sweep, so e.g. descending rows 100k..1k followed by 100..1 are one monotonic run, not two sweeps, and are never
-    written as two.  Within that contract the later sweeps are unrelated to the first: the same grid (full or a
-    row-order prefix, +-0.1 % jitter), a range lying entirely beyond the first one (above it for descending rows, below
-    it for ascending rows: the file then ends on the "wrong" side of where it started), shifted / partially overlapping,
-    nested, anywhere, or short (one or two points among longer sweeps; the first sweep has >= 2 points unless the whole
-    file is one point, because the first two rows define the row order).  Lengths differ between sweeps.
+    written as two.  Within that contract the later sweeps are unrelated to the first: the same grid with new
+    impedances (full or a row-order prefix, +-0.1 % jitter), an EXACT repeat (bit-identical rows: the whole first sweep
+    again, an overlapping slice of the same noise-free spectrum possibly continued beyond its end, or a new sweep that
+    shares a single row with the first), a range lying entirely beyond the first one (above it for descending rows,
+    below it for ascending rows: the file then ends on the "wrong" side of where it started), shifted / partially
+    overlapping, nested, anywhere, or short (one or two points among longer sweeps; the first sweep has >= 2 points
+    unless the whole file is one point, because the first two rows define the row order).  Lengths differ between sweeps.
     |Z| over 12 decades, all four quadrants."""
     desc = order == "desc"
-    base = _log_grid(rng, n, rng.uniform(-4.0, 5.0))  # ascending log10 f of the first sweep
-    grids = [base]
-    relations = ["first"]
-    for k in range(1, nsweeps if n >= 2 else 1):
-        rel = SWEEP_RELATIONS[int(rng.choice(len(SWEEP_RELATIONS), p=_SWEEP_REL_P))]
-        prev = grids[-1]
-        prev_last = prev[0] if desc else prev[-1]  # last ROW of the previous sweep
-        if rel == "same":
-            m = n if (n <= 2 or rng.random() < 0.6) else int(rng.integers(2, n + 1))
-            g = base + math.log10(1.0 + float(rng.choice([0.0, 1e-3, -1e-3])))
-            g = g[len(g) - m:] if desc else g[:m]  # the first m rows
-        else:
-            m = int(rng.integers(1, 3)) if rel == "short" else int(rng.integers(2, max(3, min(60, n + n // 2) + 1)))
-            span = _log_grid(rng, m, 0.0)
-            width = float(span[-1])
-            if rel == "beyond":
-                gap = float(rng.uniform(0.05, 3.0))
-                lo = (base[-1] + gap) if desc else (base[0] - gap - width)
-            elif rel == "shifted":
-                lo = base[0] + float(rng.uniform(-2.0, 2.0))
-            elif rel == "nested":
-                lo = float(rng.uniform(base[0], max(base[0], base[-1] - width)))
-            else:  # free / short
-                lo = float(rng.uniform(-5.0, 6.0))
-            g = span + lo
-        # the contract: the first row of this sweep lies strictly beyond the last row of the previous sweep
-        if desc and g[-1] < prev_last + _MARGIN:
-            g = g + (prev_last + float(rng.uniform(_MARGIN, 1.5)) - g[-1])
-        elif not desc and g[0] > prev_last - _MARGIN:
-            g = g - (g[0] - prev_last + float(rng.uniform(_MARGIN, 1.5)))
-        grids.append(g)
-        relations.append(rel)
-    out = []
     base_mag = rng.uniform(-6.0, 6.0)
     wild = rng.random() < 0.25
-    for g in grids:
-        f = 10.0 ** np.asarray(g, dtype=float)
+    base = _log_grid(rng, n, rng.uniform(-4.0, 5.0))  # ascending log10 f of the first sweep
+    baseZ = _rand_Z(rng, n, base_mag, wild)
+    sweeps = [(base, baseZ)]  # ascending grids with their impedances
+
+    def contract_ok(g, prev):
+        prev_last = prev[0] if desc else prev[-1]  # last ROW of the previous sweep
+        return (g[-1] >= prev_last + _MARGIN) if desc else (g[0] <= prev_last - _MARGIN)
+
+    for k in range(1, nsweeps if n >= 2 else 1):
+        rel = SWEEP_RELATIONS[int(rng.choice(len(SWEEP_RELATIONS), p=_SWEEP_REL_P))]
+        prev = sweeps[-1][0]
+        g = Z = None
+        if rel == "repeat":
+            how = rng.random()
+            if how < 0.4:  # the whole first sweep again
+                g, Z = base.copy(), baseZ.copy()
+            elif how < 0.8:  # overlapping slice of the same spectrum, possibly continued beyond one end
+                i = int(rng.integers(0, n))
+                j = int(rng.integers(i + 1, n + 1))
+                g, Z = base[i:j].copy(), baseZ[i:j].copy()
+                e = int(rng.integers(0, 6))
+                if e and j == n and rng.random() < 0.7:  # continue above the top
+                    ext = _log_grid(rng, e, g[-1] + float(rng.uniform(0.03, 0.4)))
+                    g, Z = np.concatenate([g, ext]), np.concatenate([Z, _rand_Z(rng, e, base_mag, wild)])
+                elif e and i == 0:  # continue below the bottom
+                    ext = _log_grid(rng, e, 0.0)
+                    ext = ext - ext[-1] + g[0] - float(rng.uniform(0.03, 0.4))
+                    g, Z = np.concatenate([ext, g]), np.concatenate([_rand_Z(rng, e, base_mag, wild), Z])
+            else:  # a new sweep that shares exactly one row with the first sweep
+                j = int(rng.integers(0, n))
+                e = int(rng.integers(1, max(2, n)))
+                if rng.random() < 0.5:
+                    ext = _log_grid(rng, e, base[j] + float(rng.uniform(0.03, 0.4)))
+                    g, Z = np.concatenate([[base[j]], ext]), np.concatenate([[baseZ[j]], _rand_Z(rng, e, base_mag, wild)])
+                else:
+                    ext = _log_grid(rng, e, 0.0)
+                    ext = ext - ext[-1] + base[j] - float(rng.uniform(0.03, 0.4))
+                    g, Z = np.concatenate([ext, [base[j]]]), np.concatenate([_rand_Z(rng, e, base_mag, wild), [baseZ[j]]])
+            if not contract_ok(g, prev):  # an exact repeat cannot be moved: write an unrelated sweep instead
+                g = Z = None
+                rel = "shifted"
+        if g is None:
+            if rel == "same":
+                m = n if (n <= 2 or rng.random() < 0.6) else int(rng.integers(2, n + 1))
+                g = base + math.log10(1.0 + float(rng.choice([0.0, 1e-3, -1e-3])))
+                g = g[len(g) - m:] if desc else g[:m]  # the first m rows
+            else:
+                m = int(rng.integers(1, 3)) if rel == "short" else int(rng.integers(2, max(3, min(60, n + n // 2) + 1)))
+                span = _log_grid(rng, m, 0.0)
+                width = float(span[-1])
+                if rel == "beyond":
+                    gap = float(rng.uniform(0.05, 3.0))
+                    lo = (base[-1] + gap) if desc else (base[0] - gap - width)
+                elif rel == "shifted":
+                    lo = base[0] + float(rng.uniform(-2.0, 2.0))
+                elif rel == "nested":
+                    lo = float(rng.uniform(base[0], max(base[0], base[-1] - width)))
+                else:  # free / short
+                    lo = float(rng.uniform(-5.0, 6.0))
+                g = span + lo
+            # the contract: the first row of this sweep lies strictly beyond the last row of the previous sweep
+            prev_last = prev[0] if desc else prev[-1]
+            if desc and g[-1] < prev_last + _MARGIN:
+                g = g + (prev_last + float(rng.uniform(_MARGIN, 1.5)) - g[-1])
+            elif not desc and g[0] > prev_last - _MARGIN:
+                g = g - (g[0] - prev_last + float(rng.uniform(_MARGIN, 1.5)))
+            Z = _rand_Z(rng, len(g), base_mag, wild)
+        sweeps.append((np.asarray(g, dtype=float), np.asarray(Z, dtype=complex)))
+    out = []
+    for g, Z in sweeps:
+        f = 10.0 ** g
         if desc:
-            f = f[::-1]
-        m = len(f)
-        if wild:
-            mag = 10.0 ** rng.uniform(-6.0, 6.0, size=m)
-        else:
-            mag = 10.0 ** np.clip(base_mag + rng.uniform(-1.0, 1.0, size=m), -6.0, 6.0)
-        ang = rng.uniform(-np.pi, np.pi, size=m)
-        # keep both components away from exact zero (|cos|,|sin| >= 1e-3): "both signs of Re and Im"
-        ang = np.where(np.abs(np.cos(ang)) < 1e-3, ang + 0.01, ang)
-        ang = np.where(np.abs(np.sin(ang)) < 1e-3, ang + 0.01, ang)
-        Z = mag * np.exp(1j * ang)
+            f, Z = f[::-1], Z[::-1]
         out.append(([float(x) for x in f], [complex(z) for z in Z]))
     return out
 
